@@ -156,14 +156,17 @@ def run_lookup_job(prog, job):
     # 7. Display: formats exactly index1 with "{}"
     dfn = [f for (t, f) in prog.methods.get(('NodeId', 'fmt'), []) if t == 'Display']
     if not dfn: raise Unsupported('no Display for NodeId')
-    idcell = st.new_cell(qid); fmtcell = st.new_cell(Agg('Formatter', (S(False, 'bool'),)))
+    idcell = st.new_cell(qid); fmtcell = st.new_cell(Agg('Formatter', (S(False, 'bool'), S(z3.Bool('fmt_has_width'), 'bool'), S(z3.Bool('fmt_has_precision'), 'bool'))))
     tp = fmtmodel.templates(prog)
     def obl(o):
         if o.kind != 'return': return [('C11.display_no_panic', F_)]
         out = getattr(o.state, 'out', ())
         good = len(out) == 1 and out[0][0] == 'arg' and out[0][1] == tp['display'] and out[0][2] == 'display' and isinstance(out[0][3], S)
-        ob = [('C11.display_is_plain_position_format', z3.BoolVal(good))]
+        # equally good: the text of the position handed to Formatter::pad (position with the caller's padding)
+        padded = len(out) == 1 and out[0][0] == 'pad' and isinstance(out[0][1], fmtmodel.SymDisplay)
+        ob = [('C11.display_is_plain_position_format', z3.BoolVal(good or padded))]
         if good: ob.append(('C11.display_shows_position', zb(out[0][3]) == qi))
+        if padded: ob.append(('C11.display_shows_position', zb(out[0][1].val) == qi))
         return ob
     run(dfn[0], [Ref(idcell, ()), Ref(fmtcell, ())], 'display', obl)
     # 8. count / as_slice / iter / iter_mut / is_empty
